@@ -1,3 +1,4 @@
+import os
 """The obligation table for Layer V (DESIGN.md 2.1): contracts spliced onto the extracted functions.
 
 For each extracted function:  requires (list of clause strings), ensures (list of (clause-id, serves, expr)),
@@ -181,6 +182,12 @@ _DC_LOOP_ENS = [
     ('mark_debt_pays', '(run_until == RunUntil::PayDebt && stop == Stop::FullyMarked) ==> !debt_pos(self@.m) || self@.phase == Phase::Sweep || (self@.phase == Phase::Mark && !gray_remaining_spec(self@))'),
     ('stop_the_world', '(run_until == RunUntil::PayDebt && stop_rank(stop) >= 2 && zero_work_factors(old(self)@.m.fl) && debt_pos(old(self)@.m)) ==> self@.phase == Phase::Sleep'),
 ]
+# T-pace (C09, third sentence): I-credit is kept by every driver step; the conservation law of a cycle holds until the counters are reset
+_PACE = [('pace', 'pace_x(old(self)@) ==> pace_x(self@)'),
+         ('pace', '(old(self)@.phase == Phase::Sleep && self@.phase != Phase::Sleep) ==> cycle_const(old(self)@.m, self@.m)'),
+         ('pace', '(old(self)@.phase != Phase::Sleep && no_sleep_since(self@.hist, old(self)@.hist.len() as int)) ==> cycle_const(old(self)@.m, self@.m)')]
+_DC_INV += _PACE + [('pace', '(old(self)@.phase == Phase::Sleep && !has_slept) ==> self@ == old(self)@')]
+_DC_LOOP_ENS += _PACE
 V['context.do_collection'] = dict(
     requires=['inv(old(self)@)', 'quiescent(old(self)@)'],
     ensures=[
@@ -199,6 +206,9 @@ V['context.do_collection'] = dict(
         # (exact_self is established by every wake-up and is a hypothesis here), it still holds afterwards, and whenever the call ends
         # fully marked, is_dead is true exactly for the objects unreachable from the root
         ('dead_is_unreachable_xcall', ['C07'], 'exact_self(old(self)@) ==> exact_self(final(self)@) && ((final(self)@.phase == Phase::Mark && !gray_remaining_spec(final(self)@)) ==> dead_exact(final(self)@))'),
+    ] + ([
+        ('pace', ['C09'], '(pace_x(old(self)@) ==> pace_x(final(self)@)) && ((old(self)@.phase == Phase::Sleep && final(self)@.phase != Phase::Sleep) ==> cycle_const(old(self)@.m, final(self)@.m)) && ((old(self)@.phase != Phase::Sleep && final(self)@.phase != Phase::Sleep && no_sleep_since(final(self)@.hist, old(self)@.hist.len() as int)) ==> cycle_const(old(self)@.m, final(self)@.m))'),
+    ]) + [
         # C08: history is only extended; with FinishCycle, Sleep can only be the last phase entered in this call
         ('history', ['C08'], 'old(self)@.hist.len() <= final(self)@.hist.len() && final(self)@.hist.subrange(0, old(self)@.hist.len() as int) =~= old(self)@.hist'),
         ('cycle_stops_at_sleep', ['C08'], 'stop == Stop::FinishCycle ==> forall|i: int| old(self)@.hist.len() <= i < final(self)@.hist.len() - 1 ==> final(self)@.hist[i] != Phase::Sleep'),
@@ -214,6 +224,8 @@ V['context.do_collection'] = dict(
     loops={0: dict(invariant_except_break=_DC_INV, ensures=_DC_LOOP_ENS, decreases='trank(has_slept, self@.phase), measure(self@)')},
     body_serves=['C08', 'C09', 'C01', 'C02'],
     loop_serves={'terminates': ['C02', 'C09']},
+    # the I-credit clauses are proved on a second copy of the same extracted body (smaller solver queries)
+    views=({'pace': dict(clauses={'pace'}, base={'inv', 'terminates', 'history'}), 'exact': dict(clauses={'exact', 'dead_is_unreachable', 'dead_is_unreachable_xcall'}, base={'inv', 'terminates', 'history', 'finish_marking', 'never_leaves_marked', 'finish_cycle', 'cycle_stops_at_sleep'})}),
 )
 
 # ------------------------------------------------------------------ impl Drop for Context (rule X-dropall)
@@ -265,6 +277,8 @@ L_SERVES = {
     'lem_exact': ['C02', 'C07'],
     'bcast_x': ['C02', 'C07'],
     'witness': [],
+    'lem_pace': ['C09'],
+    'bcast_p': ['C09'],
 }
 L_SERVES_FN = {
     'lem_mut.lemma_link_inv': ['C01', 'C03', 'C05', 'C18'],
@@ -451,7 +465,7 @@ _k('K.path.reflock_try_borrow_mut', 'k_path_reflock_try_borrow_mut', ['C01', 'C0
 _k('K.path.oncelock_set', 'k_path_oncelock_set', ['C01', 'C06'], 'Gc<OnceLock<T>>::set')
 _k('K.path.oncelock_get_or_init', 'k_path_oncelock_get_or_init', ['C01', 'C06'], 'Gc<OnceLock<T>>::get_or_init')
 _k('K.path.non_tracing_parent', 'k_path_barrier_on_non_tracing_parent', ['C06', 'C10'], 'write barrier on a marked object whose type needs no tracing: no panic, no underflow, no counter moves (F1)')
-_k('K.path.root_mutation', 'k_path_root_mutation', ['C01', 'C06', 'C08'], 'Arena::mutate_root / map_root / try_map_root flag the root for re-tracing while marking')
+_k('K.path.root_mutation', 'k_path_root_mutation', ['C01', 'C06', 'C08', 'C11'], 'Arena::mutate_root / map_root / try_map_root flag the root for re-tracing while marking, and the flag is already set when the callback starts (so a callback that panics after storing a pointer leaves the root flagged)')
 _k('K.path.mutation_barriers', 'k_path_mutation_barriers', ['C06', 'C10'], 'the four public Mutation barriers with each optional argument Some/None (typed wrappers)')
 _k('K.path.mutation_barriers_arena', 'k_path_mutation_backward_barriers', ['C06', 'C20'], 'the same through a real Arena with a second arena present', tier='thorough')
 # ---- Arena API (C08)
@@ -476,7 +490,7 @@ _k('K.zst.only_fitting', 'k_zst_cache_only_fitting_zsts', ['C19'], 'ZstCache<1|8
 _k('K.zst.pointer_alignment', 'k_zst_cache_pointer_alignment', ['C19', 'C17'], 'the cached pointer is aligned to MAX_ALIGN')
 # ---- DynamicRootSet (C14)
 _k('K.dynroot.stash_fetch', 'k_dynroot_stash_fetch', ['C14', 'C06', 'C01', 'C19'], 'stash in every phase x set colour x child colour: can_adopt(set, child) afterwards, slot holds the stashed pointer, fetch / try_fetch return the very object')
-_k('K.dynroot.foreign_rejected', 'k_dynroot_foreign_handle_rejected', ['C14', 'C20', 'C12'], 'contains / try_fetch reject a handle from a second set of the same arena and from a set of another arena')
+_k('K.dynroot.foreign_rejected', 'k_dynroot_foreign_handle_rejected', ['C14', 'C20', 'C12'], 'contains / try_fetch reject a handle from a second set of the same arena (which holds the very same object, or another one, at the same slot index) and from a set of another arena; the issuing set resolves it to the stashed object')
 _k('K.dynroot.fetch_foreign_panics', 'k_dynroot_fetch_foreign_panics', ['C14'], 'fetch panics for a foreign handle (should_panic row)')
 _k('K.dynroot.handle_lifecycle', 'k_dynroot_handle_lifecycle', ['C14', 'C20'], 'clone counted, slot kept while a handle exists and vacated with the last one, handles that outlive their set touch nothing')
 
@@ -508,4 +522,9 @@ PROP_ASSUMES['C14'].insert(0, 'A-rcptr')
 _k('K.weak.api', 'k_weak_api', ['C05', 'C07', 'C19'], 'GcWeak::upgrade / is_dropped / is_dead / resurrect and Gc::is_dead map exactly to the Context functions: results per (phase, colour, live), frame, revived object Gray and queued')
 _k('K.collect.btreeset_binaryheap', 'k_collect_btreeset_binaryheap', ['C16'], 'BTreeSet and BinaryHeap elements (an Ord element type that holds a pointer)', complete='bounded: <= 2 elements')
 _k('K.collect.btreemap_keys', 'k_collect_btreemap_keys', ['C16'], 'BTreeMap: key AND value reported', complete='bounded: 1 entry')
+_k('K.collect.std_hashmap', 'k_collect_std_hashmap', ['C16'], 'std::collections::HashMap (the impl is generic over the hasher: trivial hasher instead of SipHash): key AND value, strong and weak; NEEDS_TRACE', complete='bounded: 1 entry', tier='thorough')
+_k('K.collect.std_hashset', 'k_collect_std_hashset', ['C16'], 'std::collections::HashSet elements (trivial hasher); NEEDS_TRACE', complete='bounded: 1 entry', tier='thorough')
+_k('K.collect.indexmap', 'k_collect_indexmap', ['C16'], 'indexmap::IndexMap: key, then value, strong and weak; NEEDS_TRACE', complete='bounded: 1 entry', features='indexmap', tier='thorough')
+_k('K.collect.indexset', 'k_collect_indexset', ['C16'], 'indexmap::IndexSet elements; NEEDS_TRACE', complete='bounded: 1 entry', features='indexmap', tier='thorough')
+_k('K.collect.hashbrown_table', 'k_collect_hashbrown_table', ['C16'], 'hashbrown::HashTable elements, strong and weak; NEEDS_TRACE', complete='bounded: 1 entry', features='hashbrown', tier='thorough')
 _k('K.collect.hashbrown_set_keys', 'k_collect_hashbrown_set_keys', ['C16'], 'hashbrown::HashMap keys and hashbrown::HashSet elements (trivial hasher)', complete='bounded: 1 entry', features='hashbrown', tier='thorough')
